@@ -15,6 +15,8 @@ emitted lines is a linearisation of the real interleaving:
   begin i tid   storage lock acquired after the commit lock in tpc_begin (tid assigned there)
   abort i       commit lock released outside a finish section / tm.abort()
   store,vote,enter   entry of MVCCAdapter._invalidate_finish (inside the storage lock)
+  begin x tid   the same for a transactional undo (UndoAdapterInstance: external committer whose
+                invalidations go to ALL instances; `store [oid:earlier value,…]`)
   deliver j     instance lock of j acquired inside _invalidate
   publish       final release of the storage lock by tpc_finish
 
@@ -37,6 +39,7 @@ class Tracer:
         self.pending = {}      # model idx -> {oid: val}
         self.db = self.st = None
         self.roles = {}
+        self.log = []          # [(tid, {oid: val})] what the traced commits wrote (harness knowledge)
 
     # ---- set-up
     def attach(self, db, st):
@@ -122,17 +125,25 @@ class Tracer:
                 cm['k'] = self.emit(['begin', cm['i'], '?'], 'ok')
                 cm['phase'] = 'begun-pending'
             elif ph == 'begun-pending' and kind == 'release' and role == R.get('storage'):
-                self.ops[cm['k']] = 'begin %d %d' % (cm['i'], u64(self.st._tid))
+                cm['tid'] = u64(self.st._tid)
+                self.ops[cm['k']] = 'begin %s %d' % (cm['i'], cm['tid'])
                 cm['phase'] = 'begun'
             elif ph in ('locked', 'begun-pending', 'begun') and kind == 'release' and role == R.get('commit'):
                 if ph != 'locked':
-                    self.emit('abort %d' % cm['i'], 'ok')
-                    self.pending[cm['i']] = {}
+                    if cm['i'] == 'x':
+                        self.emit('extabort', 'ok')
+                    else:
+                        self.emit('abort %d' % cm['i'], 'ok')
+                        self.pending[cm['i']] = {}
                 cm['phase'] = 'aborted'
             elif ph == 'finishing' and kind == 'release' and role == R.get('storage') \
                     and self.st._lock.owner is None:
                 self.emit('publish', 'ok')
-                self.pending[cm['i']] = {}
+                if cm['i'] == 'x':
+                    self.log.append((cm['tid'], dict(cm.get('writes', {}))))
+                else:
+                    self.log.append((cm['tid'], dict(self.pending.get(cm['i'], {}))))
+                    self.pending[cm['i']] = {}
                 cm['phase'] = 'published'
 
     # ---- wrappers' call-backs (class-level wrappers installed by `installed`)
@@ -191,10 +202,33 @@ class Tracer:
         if self.idx(inst) is not None:
             self.c(t)['commit'] = dict(i=self.idx(inst), phase='start')
 
-    def enter_finish_callback(self, t):
+    def pre_undo(self, t, tid):
+        self.c(t)['undo_tid'] = tid
+
+    def undo_tpc_begin(self, t):
+        self.c(t)['commit'] = dict(i='x', phase='start', undo_tid=self.c(t).get('undo_tid'))
+
+    def value_before(self, oid, tid):
+        v = None
+        for t, w in self.log:
+            if t < tid and oid in w:
+                v = w[oid]
+        return v
+
+    def enter_finish_callback(self, t, oids=()):
+        from ZODB.utils import u64
         cm = self.c(t).get('commit')
         if cm and cm['phase'] == 'begun':
-            self.emit('store []', None)
+            if cm['i'] == 'x':          # transactional undo: the undone oids get their earlier values back
+                w = {}
+                for o in sorted(u64(x) for x in oids):
+                    v = self.value_before(o, cm['undo_tid'])
+                    w[o] = v
+                cm['writes'] = w
+                self.emit('store [%s]' % ','.join('%d:%s' % (o, '-' if v is None else v)
+                                                  for o, v in sorted(w.items())), None)
+            else:
+                self.emit('store []', None)
             self.emit('vote', 'ok')
             self.emit('enter', 'ok')
             cm['phase'] = 'finishing'
@@ -215,6 +249,14 @@ def installed(tr):
     o_new, o_invfin, o_inv, o_open, o_close = A.new_instance, A._invalidate_finish, I._invalidate, K.open, K.close
     o_begin = I.tpc_begin
     o_ic = I._invalidateCache
+    U = M.UndoAdapterInstance
+    o_ubegin = U.tpc_begin
+
+    def undo_tpc_begin(self, transaction):
+        t = tname()
+        if t is not None:
+            tr.undo_tpc_begin(t)
+        return o_ubegin(self, transaction)
 
     def _invalidateCache(self):
         t = tname()
@@ -255,7 +297,7 @@ def installed(tr):
     def _invalidate_finish(self, tid, oids, committing_instance):
         t = tname()
         if t is not None:
-            tr.enter_finish_callback(t)
+            tr.enter_finish_callback(t, oids)
         return o_invfin(self, tid, oids, committing_instance)
 
     def _invalidate(self, tid, oids):
@@ -286,6 +328,7 @@ def installed(tr):
     I.tpc_begin = tpc_begin
     I.__init__ = inst_init
     I._invalidateCache = _invalidateCache
+    U.tpc_begin = undo_tpc_begin
     try:
         yield
     finally:
@@ -294,6 +337,7 @@ def installed(tr):
         I.tpc_begin = o_begin
         I.__init__ = o_init
         I._invalidateCache = o_ic
+        U.tpc_begin = o_ubegin
 
 
 def check_line(op, exp, got):
